@@ -98,6 +98,10 @@ ENTRY_KINDS = {
     "echo-kwargs": lambda rid, v2: req("echo", {"a": [1, {"b": None}]}, rid, v2),
     "invalid-non-dict": lambda rid, v2: [5, "x", True, 1.5, None, [], {}][len(repr(rid)) % 7],
     "invalid-dict": lambda rid, v2: req(ABSENT, ABSENT, rid, v2),
+    # an entry that is itself a non-empty array is ONE invalid entry (not a nested batch), whatever it contains
+    "invalid-array-entry": lambda rid, v2: [[1], ["ok"], [None, 2]][len(repr(rid)) % 3],
+    "invalid-nested-call": lambda rid, v2: [req("ok", [9], 77, v2)],
+    "invalid-nested-notification": lambda rid, v2: [req("ok", [9], ABSENT, True)],
     "invalid-method-type": lambda rid, v2: req(5, [], rid, v2),
     "invalid-params-scalar": lambda rid, v2: req("ok", 7, rid, v2),
     "invalid-no-version": lambda rid, v2: {"method": "ok", "params": []},
